@@ -1687,16 +1687,14 @@ theorem legalFrom_all_accepted (qs : List CQueue) (items : List RItem) (hl : Leg
 
 /-! ### the "ask → allocation" transition branch of UpdateAllocation (a key replayed as an ask, reported as bound later) -/
 
-theorem books_recBind (s : Core) (x : RAlloc) (hw : CoreWF s) (hb : Books s) : Books (s.recBind x).1 := by
-  unfold recBind
+theorem books_bindHeld (s : Core) (x : RAlloc) (hw : CoreWF s) (hb : Books s) : Books (s.bindHeld x).1 := by
+  unfold bindHeld
   split
   · rename_i a n hfind hnode
     obtain ⟨ham, hl, hid⟩ := findApp_some hfind
     split
     · exact hb
     · rename_i i hitem
-      split
-      · exact hb
       · have him : i ∈ a.items := List.mem_of_find?_eq_some hitem
         have hip := List.find?_some hitem
         simp only [Bool.and_eq_true, beq_iff_eq, Bool.not_eq_true'] at hip
@@ -1779,6 +1777,133 @@ theorem books_recBind (s : Core) (x : RAlloc) (hw : CoreWF s) (hb : Books s) : B
             · show (decPendingRes q.pending i.res).getD k = q.pending.getD k - a.pending.getD k +
                 (if a.live = true then (prune (subX a.pending i.res)).getD k else 0)
               rw [h2, prune_subX_getD _ _ hwp hwr]; simp only [hl, if_true]; omega
+  · exact hb
+
+/-! ### the resource change of a pending ask that precedes the transition when the shim reports another size -/
+
+/-- no queue's pending total leaves the int64 range when an ask is resized to `res` (the framework's NoSat hypothesis for
+    this operation) -/
+def NoSatResize (s : Core) (res : Res) : Prop :=
+  ∀ q ∈ s.queues, ∀ a ∈ s.apps, ∀ i ∈ a.items, allInR (addX q.pending (prune (subX res i.res)))
+
+theorem resizePending_cases (s : Core) (a : CApp) (i : CItem) (res : Res) :
+    s.resizePending a i res = s ∨
+    s.resizePending a i res = updQueues (updApp s a.id (fun a => { a with
+        items := a.items.map (fun y => if y.key == i.key then { y with res := res } else y),
+        pending := prune (addX a.pending (prune (subX res i.res))) })) (pathChain s a.queue)
+        (fun q => { q with pending := addX q.pending (prune (subX res i.res)) }) := by
+  unfold resizePending
+  by_cases hc : (isZero (some (prune (subX res i.res))) || isZero (some res)) = true
+  · left; simp only [hc, if_true]
+  · right; simp only [hc]; rfl
+
+theorem books_resizePending (s : Core) (a : CApp) (i : CItem) (res : Res) (hw : CoreWF s) (hb : Books s)
+    (ham : a ∈ s.apps) (hl : a.live = true) (him : i ∈ a.items) (hreq : i.inReq = true) (hnal : i.allocated = false)
+    (hr : wf res = true) : Books (s.resizePending a i res) := by
+  rcases resizePending_cases s a i res with h | h
+  · rw [h]; exact hb
+  · rw [h]
+    have hnb : i.bound = false := by
+      cases hbd : i.bound with
+      | false => rfl
+      | true => rw [hw.boundAllocated a ham hl i him hbd] at hnal; cases hnal
+    obtain ⟨hwp, _, _⟩ := hw.appRes a ham hl
+    obtain ⟨hwr, _⟩ := hw.itemRes a ham hl i him
+    have hba := hb.apps a ham hl
+    have hkeys := hw.itemKeys a ham hl
+    have hD : ∀ k, (prune (subX res i.res)).getD k = res.getD k - i.res.getD k := prune_subX_getD _ _ hr hwr
+    have hDw : wf (prune (subX res i.res)) = true := prune_wf _ (subX_wf _ _ hr)
+    refine books_upd s _ a.id a _ (pathChain s a.queue) _ rfl rfl hb.nodes hw.appIds ham hl rfl hb.apps hb.queues
+      rfl ?_ (chain_iff s a.queue) (fun _ => rfl) ?_
+    · intro _
+      refine ⟨?_, ?_, ?_⟩
+      · intro k
+        show a.allocated.getD k = itemSum (a.items.map _) _ k
+        rw [itemSum_upd _ hkeys i.key _ i him rfl, hba.allocated k]; simp [hnb]
+      · intro k
+        show a.allocatedPh.getD k = itemSum (a.items.map _) _ k
+        rw [itemSum_upd _ hkeys i.key _ i him rfl, hba.allocatedPh k]; simp [hnb]
+      · intro k
+        show (prune (addX a.pending (prune (subX res i.res)))).getD k = itemSum (a.items.map _) _ k
+        rw [itemSum_upd _ hkeys i.key _ i him rfl, prune_addX_getD _ _ hwp hDw, hD, hba.pending k]
+        simp [hreq, hnal]; omega
+    · intro q _ _ k
+      constructor
+      · show q.allocated.getD k = q.allocated.getD k - (a.allocated.getD k + a.allocatedPh.getD k) +
+          (if a.live = true then a.allocated.getD k + a.allocatedPh.getD k else 0)
+        simp only [hl, if_true]; omega
+      · show (addX q.pending (prune (subX res i.res))).getD k = q.pending.getD k - a.pending.getD k +
+          (if a.live = true then (prune (addX a.pending (prune (subX res i.res)))).getD k else 0)
+        rw [addX_getD _ _ hDw, prune_addX_getD _ _ hwp hDw]
+        simp only [hl, if_true]; omega
+
+theorem coreWF_resizePending (s : Core) (a : CApp) (i : CItem) (res : Res) (hw : CoreWF s)
+    (hr : wf res = true) (hnn : NonNeg res) (hsat : NoSatResize s res) (ham : a ∈ s.apps) (him : i ∈ a.items) :
+    CoreWF (s.resizePending a i res) := by
+  rcases resizePending_cases s a i res with h | h
+  · rw [h]; exact hw
+  · rw [h]
+    have hDw : wf (prune (subX res i.res)) = true := prune_wf _ (subX_wf _ _ hr)
+    refine ⟨?_, hw.nodeIds, ?_, hw.allocKeys, ?_, ?_, ?_, ?_, hw.nodeRes, hw.allocRes⟩
+    · show (updApps s.apps a.id _).Pairwise _
+      exact pairwise_updApps _ _ _ (fun _ _ => rfl) hw.appIds
+    · show ∀ y ∈ updApps s.apps a.id _, _
+      refine forall_updApps (P := fun y => y.live = true → y.items.Pairwise (fun i j => i.key ≠ j.key)) hw.itemKeys ?_
+      intro z _ hz hzl
+      show (z.items.map _).Pairwise _
+      rw [List.pairwise_map]
+      refine List.Pairwise.imp ?_ (hz hzl)
+      intro u v huv
+      have hk : ∀ y : CItem, (if (y.key == i.key) = true then { y with res := res } else y).key = y.key := by
+        intro y; split <;> rfl
+      rw [hk u, hk v]; exact huv
+    · show ∀ y ∈ updApps s.apps a.id _, _
+      refine forall_updApps (P := fun y => y.live = true → wf y.pending = true ∧ wf y.allocated = true ∧ wf y.allocatedPh = true) hw.appRes ?_
+      intro z _ hz hzl
+      obtain ⟨h1, h2, h3⟩ := hz hzl
+      exact ⟨prune_wf _ (addX_wf _ _ h1), h2, h3⟩
+    · show ∀ y ∈ updApps s.apps a.id _, _
+      refine forall_updApps (P := fun y => y.live = true → ∀ j ∈ y.items, wf j.res = true ∧ NonNeg j.res) hw.itemRes ?_
+      intro z _ hz hzl j hj
+      obtain ⟨u, hu, rfl⟩ := List.mem_map.mp hj
+      split
+      · exact ⟨hr, hnn⟩
+      · exact hz hzl u hu
+    · show ∀ y ∈ updApps s.apps a.id _, _
+      refine forall_updApps (P := fun y => y.live = true → ∀ j ∈ y.items, j.bound = true → j.allocated = true) hw.boundAllocated ?_
+      intro z _ hz hzl j hj hjb
+      obtain ⟨u, hu, rfl⟩ := List.mem_map.mp hj
+      have hb' : ∀ y : CItem, (if (y.key == i.key) = true then { y with res := res } else y).bound = y.bound := by
+        intro y; split <;> rfl
+      have ha' : ∀ y : CItem, (if (y.key == i.key) = true then { y with res := res } else y).allocated = y.allocated := by
+        intro y; split <;> rfl
+      rw [hb'] at hjb; rw [ha']
+      exact hz hzl u hu hjb
+    · intro q' hq'
+      obtain ⟨q, hq, rfl⟩ := List.mem_map.mp hq'
+      obtain ⟨h1, h2, h3⟩ := hw.queueRes q hq
+      split
+      · exact ⟨h1, addX_wf _ _ h2, hsat q hq a ham i him⟩
+      · exact ⟨h1, h2, h3⟩
+
+/-- the item after the resize, found again -/
+theorem books_recBind (s : Core) (x : RAlloc) (hw : CoreWF s) (hb : Books s) (hr : wf x.res = true) (hnn : NonNeg x.res)
+    (hsat : NoSatResize s x.res) : Books (s.recBind x).1 := by
+  unfold recBind
+  split
+  · rename_i a n hfind hnode
+    obtain ⟨ham, hl, _⟩ := findApp_some hfind
+    split
+    · exact hb
+    · rename_i i hitem
+      split
+      · exact hb
+      · have him : i ∈ a.items := List.mem_of_find?_eq_some hitem
+        have hip := List.find?_some hitem
+        simp only [Bool.and_eq_true, beq_iff_eq, Bool.not_eq_true'] at hip
+        obtain ⟨⟨_, hreq⟩, hnal⟩ := hip
+        exact books_bindHeld _ x (coreWF_resizePending s a i x.res hw hr hnn hsat ham him)
+          (books_resizePending s a i x.res hw hb ham hl him hreq hnal hr)
   · exact hb
 
 end Yk
